@@ -328,12 +328,13 @@ PLANS['C06'] = Plan(
 
 PLANS['C11'] = Plan(
     'C11', ['lemma::C11::mirror_image_read_forwards_equals_query_read_on_reverse_strand', OMP + 'getPositionsWithSiteIds',
+            'src/workflow_coordinator.py::_WorkflowCoordinator.__getPrimaryCorrelations', OMP + 'getSequence',
             'src/alignment/segment_chainer.py::SequentialityScorer.getScore'], 'exploration',
     "Decided by a BOUNDED run-time contract on the real program: that binning/FFT seeding gives the same seed peaks for a query and its mirror image is numerics "
     "outside any contract. Lattice-commensurate sets; every query is run together with its mirror image and the two first-pass records must mirror each "
     "other (reference, opposite orientation, same reference labels, k -> N+1-k, same Confidence). Deductive contributions reported alongside: the mirror lemma "
     "(reading the mirror image forwards yields the same coordinate sequence as reading the query on the reverse strand, with labels k <-> N+1-k, from the "
-    "contract of getPositionsWithSiteIds) and the strand-independence of the join score (getScore contract, both strands).",
+    "contract of getPositionsWithSiteIds) the strand-independence of the join score (getScore contract, both strands), and the seeding glue: __getPrimaryCorrelations correlates the forward and the reverse strand with the SAME reference, generator, minPeakDistance and peaksCount and no further argument, and getSequence reads the same bins backwards on the reverse strand.",
     bounded=_lazy('bcheck.c11', 'bounded'), replay=_lazy('bcheck.c11', 'replay'),
     technique='bounded differential run-time contract (query vs mirror image) on the real program; mirror lemma over the numbering contract reported alongside',
 )
